@@ -16,7 +16,7 @@ RULE = ("Hypothesis-generated image manifests: 0-8 image records with all 15 att
         "path, identity duplicates with equal checksums, occasionally emptied cells; built through Images.add in a generated "
         "order, dumped and re-read. Oracle = per-cell multiset of 15-attribute tuples and JSON document computed from the "
         "description + byte-identical second dump. Non-trivial = >=2 images in a cell, or an image in >=2 cells, or a "
-        "unified image; distinct = SHA-1 of the description.")
+        "unified image; distinct = SHA-1 of the description. The written manifest is then changed through its images' attributes (size, mtime, bootable, volume id) and written again; cells and document are compared with the changed description. Checksum type names come in any spelling.")
 ASSUMPTIONS = ["json (stdlib) is a correct JSON reader", "header version is set to 1.2 explicitly, as callers that build manifests do"]
 FLOORS = {"distinct_nontrivial": 300, "roundtrip:shared-object": 50, "roundtrip:unified": 100, "roundtrip:size>=2^32": 100}
 
